@@ -5,6 +5,7 @@ package ambient
 
 import (
 	securityclient "istio.io/client-go/pkg/apis/security/v1"
+	"istio.io/istio/pkg/kube/krt"
 	"istio.io/istio/pkg/workloadapi/security"
 )
 
@@ -24,4 +25,12 @@ func VerifConvertPeerAuthentication(rootNamespace string, cfg, nsCfg, rootCfg *s
 // VerifGetOldestPeerAuthn exposes getOldestPeerAuthn.
 func VerifGetOldestPeerAuthn(policies []*securityclient.PeerAuthentication) *securityclient.PeerAuthentication {
 	return getOldestPeerAuthn(policies)
+}
+
+// VerifFetchPeerAuthentications exposes fetchPeerAuthentications (which policies are handed to
+// convertedSelectorPeerAuthentications for a workload).
+func VerifFetchPeerAuthentications(ctx krt.HandlerContext, idx krt.Index[string, *securityclient.PeerAuthentication],
+	meshCfg *MeshConfig, ns string, labels map[string]string,
+) []*securityclient.PeerAuthentication {
+	return fetchPeerAuthentications(ctx, idx, meshCfg, ns, labels)
 }
